@@ -153,7 +153,8 @@ def render_class(o, t, members, inv, ic):
 CODE_BODIES = [" return nil, nil ", "\n\treturn x, nil\n", " if a { b() } else { c() }; return 1, nil ", ' s := "}{"; return s, nil ',
                " // comment with }\n return nil, nil ", " /* { */ return nil, nil /* } */ ", " r := '{'; _ = r; return `}`, nil ",
                " m := map[string]struct{}{}; _ = m; return nil, nil ", "", " return \"a\\\"}b\", nil ",
-               " return \"}\\n\", nil ", " s := \"{\\t\\x41\"; return s + \"\\u00e9}\", nil ", " return \"\\\\\", nil // }\n"]
+               " return \"}\\n\", nil ", " s := \"{\\t\\x41\"; return s + \"\\u00e9}\", nil ", " return \"\\\\\", nil // }\n",
+               "\r\n\tx := 1\r\n\treturn x, nil\r\n", " return `a\r\nb`, nil ", "\t// tab\tcomment\r\n return nil, nil "]      # carriage returns inside a block are part of its text
 
 
 def render_code(o, t):
